@@ -6,6 +6,7 @@ import (
 	"encoding/json"
 	"fmt"
 	"os"
+	"os/exec"
 	"path/filepath"
 	"sort"
 	"strings"
@@ -169,7 +170,7 @@ func CheckC07(run *ev.Run) {
 	run.Trusted = append(run.Trusted, "the swagger CLI built from the working tree (no build tags)", "sha256 of the generated tree", "go/packages + go/types for the map-range census (translator)")
 	run.Assume = append(run.Assume, "the classification of a loop (syntactic rules / hand-made, tied to the body hash) is validated by this differential, not proved",
 		"Go picks a fresh iteration order per range statement and a fresh hash seed per process: N runs sample N orders per loop",
-		"concurrent library calls: not modelled; no theorem covers data races")
+		"concurrent library calls are not modelled: no theorem covers data races; they are exercised (six concurrent generations under the race detector, compared with the sequential run)", "option parsing of the generate COMMANDS (sharedOptionsCommon.apply -> swag.AddInitialisms) is serialised in that run: it is command-line plumbing, not the library API, and does race")
 	bin, err := BuildSwagger()
 	if err != nil {
 		run.Broken("corr:C07:build", "the CLI does not build: "+err.Error(), nil)
@@ -237,7 +238,9 @@ func CheckC07(run *ev.Run) {
 		{name: "expand", args: func(string) []string { return []string{"expand", "a.json", "-o", "target/expanded.json"} }, out: tgt},
 		{name: "mixin", args: func(string) []string { return []string{"mixin", "a.json", "m.json", "-o", "target/mixed.json"} }, out: tgt},
 		{name: "diff (text)", args: func(string) []string { return []string{"diff", "-d", "target/report.txt", "a.json", "b.json"} }, out: tgt},
-		{name: "diff (json)", args: func(string) []string { return []string{"diff", "-f", "json", "-d", "target/report.json", "a.json", "b.json"} }, out: tgt},
+		{name: "diff (json)", args: func(string) []string {
+			return []string{"diff", "-f", "json", "-d", "target/report.json", "a.json", "b.json"}
+		}, out: tgt},
 		{name: "generate spec (petstore fixture)", args: func(root string) []string {
 			return []string{"generate", "spec", "-w", "./fixtures/goparsing/petstore/petstore-fixture", "-o", filepath.Join(root, "target", "scanned.json")}
 		}, out: tgt, wd: Repo()},
@@ -376,8 +379,95 @@ func CheckC07(run *ev.Run) {
 			run.Sample(map[string]interface{}{"command": c.name, "runs": n, "distinct_outputs": len(digests), "files": len(first)})
 		}
 	}
+	// schedules: concurrent generations through the library in ONE process, under the race detector
+	c07Race(run, st, c08Spec([]c08op{{"get", "/a/{id}", "getA"}, {"post", "/a", "postA"}, {"put", "/b/{id}", "putB"}, {"delete", "/b/{id}", "delB"}}, []string{"alpha", "beta", "gamma"}))
 	run.Extra["distribution"] = st
 	run.Extra["runs_per_command"] = n
+}
+
+// c07Race builds cmd/vxrace with -race, runs six generations (server, client, model twice) concurrently and
+// sequentially into sibling targets of one module and compares the trees; data races are reported by the runtime.
+func c07Race(run *ev.Run, st map[string]int, spec []byte) {
+	hdir := filepath.Join(ev.VerifDir(), "harness")
+	bin := filepath.Join(hdir, "bin", "vxrace")
+	cmd := exec.Command("go", "build", "-race", "-tags", "verif", "-o", bin, "./cmd/vxrace")
+	cmd.Dir = hdir
+	cmd.Env = append(goEnv(), "CGO_ENABLED=1")
+	if out, err := cmd.CombinedOutput(); err != nil {
+		st["race-build-unavailable"]++
+		run.Assume = append(run.Assume, "the race-detector build of the concurrency harness failed ("+firstLine(string(out))+"): schedules were not exercised in this run")
+		return
+	}
+	kinds := "server,client,model,server,client,model"
+	trees := map[bool]map[string]string{}
+	for _, conc := range []bool{false, true} {
+		root, err := ScratchRoot("c07r")
+		if err != nil {
+			return
+		}
+		defer os.RemoveAll(root)
+		_ = InitModule(root, "x")
+		sp := filepath.Join(root, "spec.json")
+		_ = os.WriteFile(sp, spec, 0o644)
+		res := Run(root, 600*time.Second, bin, root, sp, kinds, fmt.Sprint(conc))
+		run.Traces++
+		run.Case(fmt.Sprintf("race|%v", conc))
+		if n := strings.Count(res.Out, "WARNING: DATA RACE"); n > 0 {
+			st["DATA-RACES"] += n
+			i := strings.Index(res.Out, "WARNING: DATA RACE")
+			run.Deviation("data-race:"+raceSite(res.Out[i:]), fmt.Sprintf("%d data race reports while %s generations ran in one process (concurrent=%v)", n, kinds, conc),
+				map[string]interface{}{"spec": json.RawMessage(spec), "first_report": clip(res.Out[i:], 3000), "how": "go build -race ./cmd/vxrace (harness); vxrace <module root> spec.json " + kinds + " true"})
+		}
+		if strings.Contains(res.Out, "ERR ") || strings.Contains(res.Out, "PANIC ") {
+			st["race-run-generation-error"]++
+		}
+		t := map[string]string{}
+		for i := range strings.Split(kinds, ",") {
+			for f, h := range Tree(filepath.Join(root, fmt.Sprintf("t%d", i))) {
+				if strings.HasSuffix(f, ".go") {
+					b, _ := os.ReadFile(filepath.Join(root, fmt.Sprintf("t%d", i), f))
+					// the target directory name is embedded in a go:generate line and in import paths: not noise, an input
+					hs := sha256.Sum256([]byte(strings.ReplaceAll(string(b), fmt.Sprintf("t%d", i), "tN")))
+					h = hex.EncodeToString(hs[:8])
+				}
+				t[fmt.Sprintf("t%d/%s", i, f)] = h
+			}
+		}
+		trees[conc] = t
+	}
+	var diff []string
+	for f, h := range trees[false] {
+		if trees[true][f] != h {
+			diff = append(diff, f)
+		}
+	}
+	for f := range trees[true] {
+		if _, ok := trees[false][f]; !ok {
+			diff = append(diff, f)
+		}
+	}
+	sort.Strings(diff)
+	if len(diff) > 0 {
+		st["CONCURRENT-OUTPUT-DIFFERS"]++
+		run.Deviation("concurrent-output-differs", fmt.Sprintf("concurrent generations in one process write different files than the same generations run one after the other: %v", clipList(diff, 6)),
+			map[string]interface{}{"spec": json.RawMessage(spec), "files": diff})
+	} else {
+		st["concurrent-equals-sequential"]++
+		st["files-compared"] = len(trees[false])
+	}
+}
+
+func raceSite(report string) string {
+	for _, l := range strings.Split(report, "\n") {
+		l = strings.TrimSpace(l)
+		if strings.HasPrefix(l, "github.com/") {
+			if i := strings.Index(l, "("); i > 0 {
+				l = l[:i]
+			}
+			return l[strings.LastIndex(l, "/")+1:]
+		}
+	}
+	return "unknown"
 }
 
 func sortedKeysOf(m map[string]interface{}) []string {
